@@ -480,6 +480,7 @@ def field_cases(ctx, cases, meta):
         for kv in KV:
             cases.append('CAttrTag %s %s %s' % (cp.string(tag.name), cver(ver_of(kv)), cp.boolean(bool(enums.is_attribute(tag, kmip_version=kv)))))
             meta.append(('attr-tag', tag.name, ver_of(kv)))
+            ctx.case_seen(('attr-tag', tag.name, ver_of(kv)))
     ctx.count('field.is_attribute', len(list(T)) * len(KV))
     # Attributes structure: a later attribute is neither written nor read under an earlier 2.x ... only 2.0 exists, so the
     # per-attribute gate is exercised through is_attribute above and through TemplateAttribute -> Attributes conversion here
